@@ -456,7 +456,11 @@ theorem maps_pinned :
       (0x40, (some 1, some 0xC0, some 0, some 5)), (0x48, (none, none, none, none)), (0x70, (some 0, none, some 2, none)),
       (0x83, (some 0, none, some 2, none)), (0x84, (some 2, none, some 2, none))] ∧
     Gen.BF3FMT_BLOB = 0 ∧ Gen.BF3FMT_MEMORYIMAGE = 1 ∧ Gen.BF3FMT_BF2COMPATIBLE = 2 ∧
-    Gen.BF3TYPE_LOADER = 0 ∧ Gen.BF3TYPE_PERIPHERAL = 1 ∧ Gen.BF3TYPE_MAIN = 2 := by decide
+    Gen.BF3TYPE_LOADER = 0 ∧ Gen.BF3TYPE_PERIPHERAL = 1 ∧ Gen.BF3TYPE_MAIN = 2 ∧
+    -- the tag types the importer knows: 34, 35-38 (SM4200), 39-3C (BLE), 3D-3E (PN5180), 40-47 (SM6300), 48, 70-73 (loader),
+    -- 83 (single-bank loader), 84-A3 (main firmware)
+    Gen.KNOWN_TAGTYPES = [0x34] ++ List.range' 0x35 4 ++ List.range' 0x39 4 ++ List.range' 0x3D 2 ++ List.range' 0x40 8 ++ [0x48] ++
+      List.range' 0x70 4 ++ [0x83] ++ List.range' 0x84 32 := by decide
 
 theorem unknown_tagtype_rejected (s : IState) (lines : List Line) (l0 : Line) (rest : List Line) (h : lines = l0 :: rest)
     (hu : isKnownTagtype l0.typ = false) : importStep s (.load lines) = .error .formatBf3 := by
